@@ -172,6 +172,34 @@ class _Quiet:
         return lambda *a, **k: True
 
 
+class _Skip:
+    """The check without the rules that were decided by evaluation: their pinned-form reading is not recorded."""
+
+    def __init__(self, chk, decided):
+        self._chk, self._decided = chk, set(decided) | {r + "-form" for r in decided}
+        self.repo, self.robust = chk.repo, chk.robust
+
+    def __getattr__(self, name):
+        return getattr(self._chk, name)
+
+    def ok(self, rule, *a, **k):
+        if rule not in self._decided:
+            self._chk.ok(rule, *a, **k)
+
+    def error(self, rule, *a, **k):
+        if rule not in self._decided:
+            self._chk.error(rule, *a, **k)
+
+    def violation(self, rule, *a, **k):
+        if rule not in self._decided:
+            self._chk.violation(rule, *a, **k)
+
+    def expect(self, cond, rule, *a, **k):
+        if rule not in self._decided:
+            return self._chk.expect(cond, rule, *a, **k)
+        return bool(cond)
+
+
 def check_fit(chk) -> None:
     repo = chk.repo
     c = spec("constants.json")["C10"]
@@ -206,7 +234,12 @@ def check_fit(chk) -> None:
 
     if not _try(c10e.check_column_selection_eval):
         _column_selection_form(chk, fi)
-    _check_fit_rest(chk, fi, fm, f, c, _try)
+    # fit_to_pdb interpreted as a whole on representative tables (pandas objects: sa/frame.py); the pinned-form versions of the rules
+    # it decides are then only fallbacks and are not recorded
+    decided = _try(c10e.check_fit_eval) or set()
+    if _try(c10e.check_feasibility_eval):
+        decided = set(decided) | {"feasibility"}  # which quantity meets which limit: evaluated; the pinned counting idiom is not read
+    _check_fit_rest(_Skip(chk, decided) if decided else chk, fi, fm, f, c, _try)
 
 
 def _enclosing_loop(fn: ast.AST, node: ast.AST) -> Optional[ast.For]:
